@@ -3,7 +3,7 @@ from collections import Counter
 from ..run import Prop
 from .. import gen, gen_relgrammar as G, gen_relwrap as W, core
 from ..core import rec_fields, unhex, hexs
-from ..gen_sat import has_big_run
+from ..gen_sat import has_big_run, i32_pair_in_text
 
 CLS_I32 = "c12-debversion-i32-digit-run"
 
@@ -303,8 +303,10 @@ class C13(Prop):
     def known_class(self, stream, fields, impl, model, why):
         # debversion 0.4.4 panics when it compares a digit run above i32::MAX; which pairs a sort
         # compares is the sorting algorithm's business, so model and implementation may differ there
+        # -- narrowed to what the class says: two alternatives with the same name and operator (impl Ord
+        # for Relation compares versions only then) whose version comparison reaches such a run
         text = unhex(fields[0])
-        if ("PANIC" in impl or "PANIC" in (model or "") or "PANIC" in (why or "")) and has_big_run(text):
+        if ("PANIC" in impl or "PANIC" in (model or "") or "PANIC" in (why or "")) and i32_pair_in_text(text):
             return CLS_I32
         return None
 
